@@ -305,6 +305,13 @@ func runC15(c *Ctx) {
 	c.ruleS7("V9-compound-assignment-reads-the-local")
 	c.only = nil
 	c.Min("V9-compound-assignment-reads-the-local", 4)
+	// V10: the locals table is read and written by the data context only, which consults the injected table
+	// first (V4): an evaluator that writes a name straight into the table it was handed (the key of a forRange
+	// "is always a plain local") creates a local beside an injected name of that name, which no read ever
+	// sees (the outside-the-context part of C18-J4)
+	c.only = func(key string) bool { return !strings.HasPrefix(key, "DataContext.") }
+	c.ruleStoresLocked("V10-locals-table-touched-by-the-context-only")
+	c.only = nil
 	// V6: what is read out of a rule's locals table never goes into the data context itself:
 	// the context is shared by every rule of the call, by later calls and by concurrent
 	// executions, the table belongs to one execution. A value looked up in the table and
